@@ -74,7 +74,7 @@ def main():
     conf = "--confirm" in args
     in_repo = "--in-repo" in args
     ids = [a for a in args if not a.startswith("--")] or sorted(p.name for p in SEEDED.iterdir() if p.is_dir())
-    resf = SEEDED / "RESULTS.json"
+    resf = pathlib.Path(os.environ.get("SEEDED_RESULTS", SEEDED / "RESULTS.json"))      # (shards of a parallel evaluation write their own file)
     results = json.loads(resf.read_text()) if resf.exists() else {}
     manifest = json.loads((HERE / "MANIFEST.json").read_text())
     all_props = [c["property_id"] for c in manifest["checks"]]
